@@ -266,14 +266,15 @@ fn program(fam: Fam, game: Game, rng: &mut Rng) -> String {
             g.regs = true; g.jumps = true; g.diffs = true;
             let n = 1 + g.rng.below(2);
             for k in 0..n { let b = g.body(); writeln!(text, "void sub{}() {{\n{}}}", k, b).unwrap(); }
-            // subs with parameters: named and unnamed ones of both types in any order (at most 3 per type)
+            // subs with parameters: named and unnamed ones of both types in any order (up to the game's limit per type)
             let nps = g.rng.below(3);
             for k in n..n + nps {
                 let (mut ni, mut nf) = (0, 0);
                 let mut params = vec![];
                 for q in 0..1 + g.rng.below(5) {
                     let fl = g.rng.chance(1, 3);
-                    if (fl && nf == 3) || (!fl && ni == 3) { continue; }
+                    let cap = if game == Game::Th06 { 1 } else { 4 };     // EoSD subs take one parameter per type
+                    if (fl && nf == cap) || (!fl && ni == cap) { continue; }
                     if fl { nf += 1; } else { ni += 1; }
                     let ty = if fl { "float" } else { "int" };
                     if g.rng.chance(2, 3) {
